@@ -203,3 +203,106 @@ Proof. exact (gen_ip_activation_eq f st x). Qed.
 
 Print Assumptions C10_generated_ip_is_model.
 Print Assumptions C10_generated_ip_activation_is_model.
+
+(* ================================================================================================================
+   The R-vs-Q instance gap, closed by proof (base/NumHom.v, proofs/QR_bridge_C10.v).
+   The theorems above are about model/Online.v at F := R; the correspondence run (run/RunC10.v: chk_rls, chk_lms, chk_ip)
+   evaluates the SAME term at F := Q.  [Q2R] is a homomorphism of the [Num] class, so every function of the model commutes with
+   the entry-wise embedding ([qv2r], [qm2r]; [rdo2r]: Wout, bias, P embedded, cursor unchanged; [xy2r]: a sample;
+   [sched2r]: the learning-rate schedule): running at Q and embedding = running at R on the embedded data.
+   Hence [chk_rls / chk_lms ... = true] says that the learned state and the outputs of the R-MODEL OF THE THEOREMS on those
+   rational samples are within 1e-9 of what reservoirpy's node holds and returned.
+   Division by 1 + r'Pr: NO side condition is needed.  The class division is total with x/0 = 0 at both instances
+   (Qinv 0 = 0, and Rinv_0 in Coq 8.16), so Q2R (a / b) = Q2R a / Q2R b unconditionally; that the denominator is in fact
+   positive on the runs is C10_rls_invariant's business (alpha > 0), not the embedding's. *)
+From RV Require Import base.NumHom proofs.QR_bridge_C10.
+
+Theorem C10_Qforward_embeds (odim : nat) (s : rdo (F:=Q)) (x : list Q) :
+  qv2r (readout_forward odim s x) = readout_forward odim (rdo2r s) (qv2r x).
+Proof. exact (Qforward_embeds odim s x). Qed.
+
+(* one RLS step: the gain 1/(1 + r'Pr) and the whole update (P, stacked weights, bias split) *)
+Theorem C10_Qrls_embeds (hb : bool) (s : rdo (F:=Q)) (x y p : list Q) :
+  Q2R (rls_gain (Pm s) (augment hb x)) = rls_gain (Pm (rdo2r s)) (augment hb (qv2r x)) /\
+  rdo2r (rls_update hb s x y p) = rls_update hb (rdo2r s) (qv2r x) (qv2r y) (qv2r p).
+Proof. exact (Qrls_embeds hb s x y p). Qed.
+
+(* one LMS step, with the schedule value under the cursor *)
+Theorem C10_Qlms_embeds (sc : sched (F:=Q)) (hb : bool) (s : rdo (F:=Q)) (x y p : list Q) :
+  rdo2r (lms_update sc hb s x y p) = lms_update (sched2r sc) hb (rdo2r s) (qv2r x) (qv2r y) (qv2r p).
+Proof. exact (Qlms_embeds sc hb s x y p). Qed.
+
+(* the whole online loop from the fresh node (exactly the term chk_rls / chk_lms evaluate): any learn_every, any list of
+   successive train calls; the final learned state and every returned row *)
+Theorem C10_Qrls_train_calls_embed (hb : bool) (idim odim : nat) (alpha : Q) (k : nat) (calls : list (list (list Q * list Q))) :
+  let rQ := train_calls (readout_forward odim) (rls_update hb) k (rls_init hb idim odim alpha) calls in
+  (rdo2r (fst rQ), map qm2r (snd rQ))
+  = train_calls (readout_forward odim) (rls_update hb) k (rls_init hb idim odim (Q2R alpha)) (map (map xy2r) calls).
+Proof. exact (Qrls_train_calls_embed hb idim odim alpha k calls). Qed.
+
+Theorem C10_Qlms_train_calls_embed (sc : sched (F:=Q)) (hb : bool) (idim odim k : nat) (calls : list (list (list Q * list Q))) :
+  let rQ := train_calls (readout_forward odim) (lms_update sc hb) k (lms_init idim odim) calls in
+  (rdo2r (fst rQ), map qm2r (snd rQ))
+  = train_calls (readout_forward odim) (lms_update (sched2r sc) hb) k (lms_init idim odim) (map (map xy2r) calls).
+Proof. exact (Qlms_train_calls_embed sc hb idim odim k calls). Qed.
+
+(* intrinsic plasticity: one learning step given the activation value (the term chk_ip evaluates) *)
+Theorem C10_Qip_step_embeds (c : ipcfg (F:=Q)) (st : ipst (F:=Q)) (u y : list Q) :
+  eipst Q2R (ip_step_y c st u y) = ip_step_y (eipcfg Q2R c) (eipst Q2R st) (qv2r u) (qv2r y).
+Proof. exact (Qip_step_embeds c st u y). Qed.
+
+(* non-vacuity: RLS with bias, 2 inputs, alpha = 1/2, two samples: the R-model's learned state is the embedded Q result *)
+Example C10_Qrls_train_calls_example :
+  train_calls (readout_forward 1) (rls_update true) 1 (rls_init true 2 1 (Q2R (1#2)%Q)) (map (map xy2r) excalls)
+  = (rdo2r {| Wout := [[(18#155)%Q]; [(-331#930)%Q]]; bias := [(193#930)%Q];
+              Pm := [[(286#465)%Q; (-88#155)%Q; (-52#465)%Q]; [(-88#155)%Q; (272#155)%Q; (16#155)%Q];
+                     [(-52#465)%Q; (16#155)%Q; (94#465)%Q]]; cursor := 0 |},
+     map qm2r [[[0%Q]; [(-21#88)%Q]]]).
+Proof. exact Qrls_train_calls_example. Qed.
+
+Print Assumptions C10_Qforward_embeds.
+Print Assumptions C10_Qrls_embeds.
+Print Assumptions C10_Qlms_embeds.
+Print Assumptions C10_Qrls_train_calls_embed.
+Print Assumptions C10_Qlms_train_calls_embed.
+Print Assumptions C10_Qip_step_embeds.
+
+(* ---- the verdict of the correspondence runner, read at R ----
+   [chk_rls] / [chk_lms] (run/RunC10.v) are the booleans evaluated at Q by vm_compute for every scenario (a list of successive
+   train calls, some of which raise and must leave the node unchanged).  [calls_close fwd upd k s calls os] walks the same calls
+   with the R-INSTANCE of the model on the embedded samples ([calls2r]) and compares, with the real inequality
+   [rclose m o] := |m - o| <= 1e-9 * max(1,|m|), the returned rows and the learned (Wout, bias, P, cursor) after each call with
+   the embedded observations.  A verdict [true] implies it: the correspondence run is a statement about the model of the
+   theorems above. *)
+From RV Require Import run.RunC10.
+
+Theorem C10_chk_rls_is_about_R_model (hb : bool) (idim odim : nat) (alpha : Q) (k : nat)
+      (calls : list (bool * list (list Q * list Q))) (os : list obs) :
+  chk_rls hb idim odim alpha k calls os = true ->
+  calls_close (readout_forward odim) (rls_update hb) k (rls_init hb idim odim (Q2R alpha)) (calls2r calls) os.
+Proof. exact (chk_rls_is_about_R_model hb idim odim alpha k calls os). Qed.
+
+Theorem C10_chk_lms_is_about_R_model (sc : list Q * Q) (hb : bool) (idim odim k : nat)
+      (calls : list (bool * list (list Q * list Q))) (os : list obs) :
+  chk_lms sc hb idim odim k calls os = true ->
+  calls_close (readout_forward odim) (lms_update (sched2r sc) hb) k (lms_init idim odim) (calls2r calls) os.
+Proof. exact (chk_lms_is_about_R_model sc hb idim odim k calls os). Qed.
+
+(* what [calls_close] says, unfolded once (definitional) *)
+Theorem C10_calls_close_unfold fwd upd k s (raises : bool) c cs o os :
+  calls_close fwd upd k s ((raises, c) :: cs) (o :: os)
+  = if raises then same_rdo_R s o /\ calls_close fwd upd k s cs os
+    else mrclose (snd (train fwd upd k s c)) (qm2r (o_out o)) /\ same_rdo_R (fst (train fwd upd k s c)) o /\
+         calls_close fwd upd k (fst (train fwd upd k s c)) cs os.
+Proof. destruct raises; reflexivity. Qed.
+
+(* non-vacuity: a scenario on which the runner answers true *)
+Example C10_chk_rls_example :
+  chk_rls true 2 1 (1#2)%Q 1 [(false, [([(1#2)%Q; (-1#1)%Q], [(3#4)%Q]); ([(1#4)%Q; (2#1)%Q], [(-1#2)%Q])])]
+    [{| o_out := [[0%Q]; [(-21#88)%Q]]; o_W := [[(18#155)%Q]; [(-331#930)%Q]]; o_b := [(193#930)%Q];
+        o_P := [[(286#465)%Q; (-88#155)%Q; (-52#465)%Q]; [(-88#155)%Q; (272#155)%Q; (16#155)%Q]; [(-52#465)%Q; (16#155)%Q; (94#465)%Q]];
+        o_cur := None |}] = true.
+Proof. exact chk_rls_example. Qed.
+
+Print Assumptions C10_chk_rls_is_about_R_model.
+Print Assumptions C10_chk_lms_is_about_R_model.
